@@ -160,6 +160,10 @@ class FalsyEdge(DirectedEdge):
         return False
 
 
+class World(Universe):
+    """A plain subclass of Universe (no overrides): 'a universe' is an isinstance notion."""
+
+
 class FalsyUniverse(Universe):
     """A universe that looks like an empty container (falsy) although it has members."""
 
@@ -359,6 +363,7 @@ ALL_CLASSES.update(VERTEX_CLASSES)
 ALL_CLASSES.update(LINK_CLASSES)
 ALL_CLASSES["UniverseLaws"] = UniverseLaws
 ALL_CLASSES["FalsyUniverse"] = FalsyUniverse
+ALL_CLASSES["World"] = World
 
 DIRECTED_NAMES = ("DirectedEdge", "DSub", "DSubSub", "MixEdge", "FalsyEdge", "RenamedEdge")
 UNDIRECTED_NAMES = ("UnDirectedEdge", "USub", "PosOnlyEdge")
